@@ -48,7 +48,14 @@ type act struct {
 	Src     int     `json:"src"`
 	Table   []route `json:"table"`
 	Off     []int   `json:"off"` // "lost" cases: the routers that said good-bye before
-	How     string  `json:"how"` // "lost" cases: how the victim lost session objects afterwards
+	How     string  `json:"how"` // "lost" cases: how the victim lost session objects afterwards; "atonce" cases: why the victim does not know X
+	// "atonce" cases (atonce.go): K1 copies of a ping of type T1 and K2 copies of a newer one of type T2 ("none": only
+	// one ping), all of router Src, and - Hop != 0 - a genuine announcement of peer Hop with a hop record of Src
+	T1  string `json:"t1"`
+	K1  int    `json:"k1"`
+	T2  string `json:"t2"`
+	K2  int    `json:"k2"`
+	Hop int    `json:"hop"`
 }
 
 type scene struct {
@@ -57,6 +64,7 @@ type scene struct {
 	rng     *rand.Rand
 	forceMT frame.MessageType // != 0: every ping is built with this message type
 	lost    bool              // the history "good-bye, then the sessions are lost": building a ping must not make the victim touch its sessions
+	store   *slowStore        // != nil: the victim's router storage takes a moment per query when told so (atonce.go)
 }
 
 // model number n <-> mesh node n+1 (victim 0 = node 1, peers 1..3, router 4 = node 5, unknown 5 = node 6)
@@ -67,6 +75,12 @@ func newScene(rng *rand.Rand, table []route) *scene { return newSceneOpt(rng, ta
 
 // newSceneOpt: the victim never set up end-to-end keys with the routers of unkeyed (it only knows them).
 func newSceneOpt(rng *rand.Rand, table []route, unkeyed map[int]bool) *scene {
+	return newSceneStore(rng, table, unkeyed, false)
+}
+
+// newSceneStore: with slow, the victim's router storage is the in-memory storage of /repo behind a slowStore (which
+// answers at once until it is told otherwise).
+func newSceneStore(rng *rand.Rand, table []route, unkeyed map[int]bool, slow bool) *scene {
 	edges := []mesh.Edge{{A: 1, B: 2, LA: 21, LB: 12}, {A: 1, B: 3, LA: 31, LB: 13}, {A: 1, B: 4, LA: 41, LB: 14}}
 	ms, err := mesh.New(4, edges, mesh.Opts{Extra: 2, WithTun: func(i int) bool { return i == 1 },
 		Cfg: func(i int) config.Store {
@@ -76,6 +90,12 @@ func newSceneOpt(rng *rand.Rand, table []route, unkeyed map[int]bool) *scene {
 		panic(err)
 	}
 	s := &scene{ms: ms, v: ms.Node(1), rng: rng}
+	if slow {
+		// before the victim has any session worth keeping: the same records, a state manager on the wrapped storage
+		s.store = newSlowStore(s.v.Store, rng.Int63())
+		s.v.Store = s.store
+		s.v.St = state.New(s.v, s.store)
+	}
 	// the victim knows router 4 (learnt through gossip) but not router 5
 	pub4 := s.node(4).ID.PublicAddress
 	_ = s.v.St.AddRouter(&pub4)
@@ -418,6 +438,22 @@ func msgData(data []byte) []byte {
 // given relays (outermost first), each made and signed by that relay for exactly this announcement; it is delivered
 // over the link of the outermost relay.
 func (s *scene) learnThroughHops(origin *world.Node, relays []*world.Node) {
+	out := s.hopAnnouncement(origin, relays)
+	res, err := s.ms.W.DeliverRaw(relays[0], s.v, out)
+	if err != nil {
+		panic(fmt.Sprintf("learnThroughHops: the genuine announcement was refused: %v", err))
+	}
+	for _, h := range res {
+		if e := h.HandlerErr(); e != "" {
+			panic("learnThroughHops: the genuine announcement was refused: " + e)
+		}
+	}
+	s.ms.W.Inflight = nil
+}
+
+// hopAnnouncement: a fresh announcement of origin to the victim with genuine hop records of the relays (outermost
+// first; relays[0] is the peer that delivers it), as bytes.
+func (s *scene) hopAnnouncement(origin *world.Node, relays []*world.Node) []byte {
 	s.ms.W.Inflight = nil
 	time.Sleep(2 * time.Millisecond)
 	_ = origin.Rt.AnnouncePing.Send(s.v.ID.IP)
@@ -429,7 +465,7 @@ func (s *scene) learnThroughHops(origin *world.Node, relays []*world.Node) {
 	}
 	s.ms.W.Inflight = nil
 	if fr == nil {
-		panic("learnThroughHops: no announcement captured")
+		panic("hopAnnouncement: no announcement captured")
 	}
 	mi := 49 + int(fr[48])
 	ml := int(fr[mi])<<8 | int(fr[mi+1])
@@ -454,17 +490,8 @@ func (s *scene) learnThroughHops(origin *world.Node, relays []*world.Node) {
 		}
 		inner = append(body, sig...)
 	}
-	out := append(append([]byte(nil), fr[:authFrom+64]...), inner...)
-	res, err := s.ms.W.DeliverRaw(relays[0], s.v, out)
-	if err != nil {
-		panic(fmt.Sprintf("learnThroughHops: the genuine announcement was refused: %v", err))
-	}
-	for _, h := range res {
-		if e := h.HandlerErr(); e != "" {
-			panic("learnThroughHops: the genuine announcement was refused: " + e)
-		}
-	}
 	s.ms.W.Inflight = nil
+	return append(append([]byte(nil), fr[:authFrom+64]...), inner...)
 }
 
 // deliverFrom picks the link the frame arrives on: the claimed source if it is a peer, else peer 1.
@@ -478,7 +505,7 @@ func (s *scene) via(x int) *world.Node {
 func main() { vf.Main("C07", "model_checking", run) }
 
 func run(c *vf.Ctx) {
-	c.Rule("M: TLC enumerates 12 ping types x 12 variants x claimed source x routing tables (all subsets of a 9-route catalogue with <= 4 entries for disconnects): 5835 cases, each with the only state change the property allows. R: every non-disconnect case and a seeded sample of the disconnect cases (thorough: all) built with the real peers' stacks, altered per variant (random authenticated byte/bit), delivered to a real victim with 3 peers, a gossip-known router and an unknown router; before/after snapshots of keys, MTU, routes, connection states, stored info, offline flags and stored records. R-lost: the same pings (action LostCase of the model: type x variant x claimed source x routers that said good-bye x kind of loss) after genuine good-byes set offline flags and the victim lost session objects - ticks of the real session cleaner after idle time, or a restart of the state manager on its reloaded JSON state file; the snapshot before the ping looks at no session believed lost; incl. a genuine announcement dressed with a forged hop record naming a router that said good-bye. T: all observations judged by TLC. distinct = distinct (type, variant, source, table)")
+	c.Rule("M: TLC enumerates 12 ping types x 12 variants x claimed source x routing tables (all subsets of a 9-route catalogue with <= 4 entries for disconnects): 5835 cases, each with the only state change the property allows. R: every non-disconnect case and a seeded sample of the disconnect cases (thorough: all) built with the real peers' stacks, altered per variant (random authenticated byte/bit), delivered to a real victim with 3 peers, a gossip-known router and an unknown router; before/after snapshots of keys, MTU, routes, connection states, stored info, offline flags and stored records. R-lost: the same pings (action LostCase of the model: type x variant x claimed source x routers that said good-bye x kind of loss) after genuine good-byes set offline flags and the victim lost session objects - ticks of the real session cleaner after idle time, or a restart of the state manager on its reloaded JSON state file; the snapshot before the ping looks at no session believed lost; incl. a genuine announcement dressed with a forged hop record naming a router that said good-bye. R-atonce (action AtOnceCase of the model: two ping types x copies x unknown router x why it is unknown x an announcement whose hop record introduces it): the victim has no record and no session of router X (never heard of it, or restarted without its state file) when a burst arrives - verbatim copies of one or two genuine pings of X, possibly an announcement of another peer that travelled through X - that as many real router workers work on at the same moment (the victim's storage yields / takes some 100 us / a few ms per query); snapshots before and after the burst against what the distinct authentic pings allow once each, hello requests answered more than once counted; afterwards every ping of the burst again, one at a time (a replay). T: all observations judged by TLC. distinct = distinct (type, variant, source, table)")
 	c.Assume("signatures / AEAD unforgeable (also tested by the flips)", "error pings are rate limited per (code, source) for 10 s: every case runs on a fresh victim")
 
 	mc, err := c.TLC("ControlPlane", "ControlPlane_MC.cfg", vf.TLCOpts{Workers: 1, Timeout: 10 * time.Minute})
@@ -489,7 +516,7 @@ func run(c *vf.Ctx) {
 		c.Broken("M: %s violated in the model", mc.Violated)
 	}
 	c.AddModel(mc.Distinct, mc.Generated)
-	var cases, lostCases []act
+	var cases, lostCases, atOnceCases []act
 	for _, e := range mc.Edges {
 		var a act
 		if json.Unmarshal(e.Act, &a) != nil {
@@ -500,9 +527,11 @@ func run(c *vf.Ctx) {
 			cases = append(cases, a)
 		case "lost":
 			lostCases = append(lostCases, a)
+		case "atonce":
+			atOnceCases = append(atOnceCases, a)
 		}
 	}
-	c.Stage("M", map[string]any{"cases": len(cases), "lost_cases": len(lostCases)})
+	c.Stage("M", map[string]any{"cases": len(cases), "lost_cases": len(lostCases), "atonce_cases": len(atOnceCases)})
 	rng := rand.New(rand.NewSource(c.Seed))
 	// all non-disconnect cases; disconnect cases sampled in quick
 	var sel []act
@@ -700,6 +729,8 @@ func run(c *vf.Ctx) {
 	}
 	// R-lost: the same question after good-byes and a loss of session objects (cleaner / restart)
 	events = append(events, lostStage(c, rng, lostCases)...)
+	// R-atonce: first contact of an unknown router, the frames of a burst on several router workers at the same moment
+	events = append(events, atOnceStage(c, rng, atOnceCases)...)
 
 	rejectAt, inv, tres, err := c.TraceCheck("ControlPlane_Trace", "ControlPlane_Trace.cfg", events, vf.TLCOpts{Timeout: 30 * time.Minute, Heap: "8g"})
 	if err != nil {
@@ -717,6 +748,15 @@ func run(c *vf.Ctx) {
 		if ev["ev"] == "lost" {
 			return vf.Key("lost", ev["type"], ev["variant"])
 		}
+		if ev["ev"] == "atonce" {
+			if n, _ := copiesEffective(ev); n > 1 {
+				return "atonce/copies-of-one-ping-effective" // one finding whatever the burst
+			}
+			return vf.Key("atonce", "burst", ev["type"])
+		}
+		if ev["ev"] == "atonce-replay" {
+			return vf.Key("atonce", "replayed-afterwards", ev["type"])
+		}
 		return vf.Key(ev["type"], ev["variant"])
 	}
 	for rejectAt > 0 || inv != "" {
@@ -729,10 +769,20 @@ func run(c *vf.Ctx) {
 		} else if v == "forged-hop" {
 			what = "a genuine announcement dressed with a hop record its named router never signed changed state of a router other than the announcing one"
 		}
+		hist := ""
+		if ev["ev"] == "atonce" {
+			hist = fmt.Sprintf("the victim has no record and no session of router %v (%s) when a burst arrives that as many router workers work on at the same moment - %s: ", ev["src"], ev["how"], burstText(ev))
+			what = "the burst changed more than its distinct authentic pings allow once each"
+			if n, txt := copiesEffective(ev); n > 1 {
+				what = txt
+			}
+		} else if ev["ev"] == "atonce-replay" {
+			hist = fmt.Sprintf("the victim met router %v for the first time (%s) in a burst that several router workers worked on at the same moment; afterwards, one frame at a time: ", ev["src"], ev["how"])
+			what = "a replayed ping changed state: the victim had received this very ping in the burst"
+		}
 		if ev["panic"] == true {
 			what = "the router worker panicked"
 		}
-		hist := ""
 		if ev["ev"] == "lost" {
 			hist = fmt.Sprintf("after routers %v said good-bye (offline flag set) and the victim lost session objects (%s): ", ev["off"], ev["how"])
 		}
